@@ -28,7 +28,7 @@ func swapControls(ctl *Ctx) []*RuleResult {
 func init() {
 	register(&propDef{
 		id:          "C17",
-		explanation: "Decides the 'who may write what' sentence and one clause of 'ints.Sort orders like the standard library': PURE (the ten non-mutating sortints functions write nothing reachable from any argument, package-level or captured state), RECEIVER-ONLY (Add, Remove and the Union method write only memory rooted at their receiver, never the variadic x or b), both from E-EFF write summaries; SWAP (ints.Sort and all its helpers only permute cells of their slice, so the output is a rearrangement of the input). It does not decide that results are the right sets or that Sort orders.",
+		explanation: "Decides the 'who may write what' sentence and one clause of 'ints.Sort orders like the standard library': PURE (the ten non-mutating sortints functions write nothing reachable from any argument, package-level or captured state), FRESH (the slice they return shares no memory with an argument, so mutating the result later cannot change an argument), RECEIVER-ONLY (Add, Remove and the Union method write only memory rooted at their receiver, never the variadic x or b), both from E-EFF write summaries; SWAP (ints.Sort and all its helpers only permute cells of their slice, so the output is a rearrangement of the input). It does not decide that results are the right sets or that Sort orders.",
 		notDecided:  []string{"that each function returns the mathematically correct set / boolean / size (e.g. Add with a repeated, already-present argument; Range with negative step)", "that ints.Sort puts the elements in ascending order"},
 		assumptions: []string{"append into spare capacity of an argument counts as a write to that argument (it is visible to other slices sharing the array)"},
 		run: func(c *Ctx, tier string) []*RuleResult {
@@ -40,7 +40,11 @@ func init() {
 			for _, n := range c17Mutators {
 				onlyWrites(c, ro, c.Fn(n), []int{0}, "its receiver")
 			}
-			return []*RuleResult{pure, ro, ruleSwap(c, "SWAP", swapDoc, c17Swap, 10)}
+			fr := &RuleResult{Rule: "FRESH", Doc: "the set returned by a non-mutating function shares no memory with its arguments (a later in-place Remove/Union on the result cannot change an argument)", MinInst: 7}
+			for _, n := range []string{"sortints.Union", "sortints.Intersection", "sortints.SetMinus", "sortints.XOR", "sortints.Complement", "sortints.Range", "sortints.NewSortedInts"} {
+				freshResult(c, fr, c.Fn(n), 0, nil, nil, "is a new slice")
+			}
+			return []*RuleResult{pure, ro, fr, ruleSwap(c, "SWAP", swapDoc, c17Swap, 10)}
 		},
 		controls: func(ctl *Ctx) []*RuleResult {
 			pure := &RuleResult{Rule: "PURE"}
@@ -50,7 +54,10 @@ func init() {
 			ro := &RuleResult{Rule: "RECEIVER-ONLY"}
 			onlyWrites(ctl, ro, ctl.Fn("(*effctl.S).BadMutator"), []int{0}, "its receiver")
 			onlyWrites(ctl, ro, ctl.Fn("(*effctl.S).GoodMutator"), []int{0}, "its receiver")
-			return append([]*RuleResult{pure, ro}, swapControls(ctl)...)
+			fr := &RuleResult{Rule: "FRESH"}
+			freshResult(ctl, fr, ctl.Fn("effctl.BadFreshAlias"), 0, nil, nil, "is a new slice")
+			freshResult(ctl, fr, ctl.Fn("effctl.GoodPure"), 0, nil, nil, "is a new slice")
+			return append([]*RuleResult{pure, ro, fr}, swapControls(ctl)...)
 		},
 	})
 	register(&propDef{
